@@ -167,7 +167,8 @@ class P(Prop):
     ID = "C04"
     MODULE = "C04"
     THEOREMS = ["C04_end", "C04_hermite", "C04_fdx_flat", "C04_fdx_harmonic", "C04_end_slopes", "C04_segments", "C04_interior_slopes", "C04_count",
-                "C04_coefficient_float", "C04_cubic_deviation", "C04_interpolation_float", "C04_interior_is_composition", "C04_interior_float", "C04_float_hypotheses_hold", "C04_interior_hypotheses_hold"]
+                "C04_coefficient_float", "C04_cubic_deviation", "C04_interpolation_float", "C04_interior_is_composition", "C04_interior_float", "C04_ends_are_compositions", "C04_ends_float",
+                "C04_float_hypotheses_hold", "C04_interior_hypotheses_hold", "C04_ends_hypotheses_hold"]
     KERNELS = ["spline::f_dx", "spline::segment", "spline::f_x0", "spline::f_xn"]
     RULE = ("constrained_spline on 3..12 (thorough ..100) knots with strictly increasing x: monotone, oscillating, zig-zag, plateaued, "
             "collinear, nearly collinear, unevenly spaced (gap ratios up to 2^12), offset up to 2^20, a knot exactly at 0, abscissae in units of 1e-17..2^-80 (every dx << eps), gentle slopes (~1e-8), ordinates up to 1.1e308 over wide intervals "
@@ -211,6 +212,11 @@ class P(Prop):
             # end to end (C04_interior_float): the first interior cubic of a generated spline, from its four knots
             flat = [b for kn in case["knots"][:4] for b in kn]
             return "hyp_safe_run_dev (map interior_e [1;2;3;4]%%nat) %s" % C.zlist(flat)
+        if case["op"] == "spline" and len(case["knots"]) >= 3 and case["meta"].get("class") not in ("spline/malformed", "spline/rejected") \
+                and self.ID == "C04" and (sum(case["knots"][0]) % 6 == 1):
+            # both end cubics (C04_ends_float): first three / last three knots
+            first = [b for kn in case["knots"][:3] for b in kn]
+            return "hyp_safe_run_dev (map first_e [1;2;3;4]%%nat) %s" % C.zlist(first)
         return None
 
     def coq_term(self, case, h):
